@@ -68,12 +68,26 @@ def judge_1d(m, ncell, lo, hi, tag):
     return out
 
 
-def eval_case(case):
+def construct(case):
+    k = case["ctor"]
+    if k == "uni":
+        n = case["ncell"]
+        return space.mesh1.unimesh(ncell=np.int64(n) if case.get("npint") else n, length=case["length"], x0=case["x0"])
+    if k == "ref":
+        return space.mesh1.refinedmesh(ncell=case["ncell"], length=case["length"], ratio=case["ratio"], nratioa=case["a"], nratiob=case["b"])
+    if k == "morph":
+        return space.mesh1.morphedmesh(ncell=case["ncell"], length=case["length"], x0=case["x0"], morph=MORPHS[case["morph"]])
+    return space.mesh2.mesh2d(case["nx"], case["ny"], case["lx"], case["ly"])
+
+
+def eval_case(case, then=()):
+    """the guarantees of the mesh built from `case`, asked after the meshes of `then` were built as well (all alive)"""
     k = case["ctor"]
     out = []
+    m = construct(case)
+    others = [construct(c) for c in then]
     if k == "uni":
         n, L, x0 = case["ncell"], case["length"], case["x0"]
-        m = space.mesh1.unimesh(ncell=n, length=L, x0=x0)
         out += judge_1d(m, n, x0, x0 + L, k)
         v = np.asarray(m.vol())
         if v.shape == (n,) and not np.all(np.abs(v - L / n) <= 4 * EPS * (abs(x0) + L)):
@@ -82,7 +96,6 @@ def eval_case(case):
             out.append(("length-attribute", "%r" % m.length))
     elif k == "ref":
         n, L, r, a, b = case["ncell"], case["length"], case["ratio"], case["a"], case["b"]
-        m = space.mesh1.refinedmesh(ncell=n, length=L, ratio=r, nratioa=a, nratiob=b)
         out += judge_1d(m, n, 0.0, L, k)
         v = np.asarray(m.vol())
         nc1f = n * a / (a + b)
@@ -99,7 +112,6 @@ def eval_case(case):
     elif k == "morph":
         n, L, x0, mo = case["ncell"], case["length"], case["x0"], case["morph"]
         f = MORPHS[mo]
-        m = space.mesh1.morphedmesh(ncell=n, length=L, x0=x0, morph=f)
         lo, hi = float(f(np.array([x0]))[0]), float(f(np.array([x0 + L]))[0])
         out += judge_1d(m, n, lo, hi, k)
         ref = f(np.linspace(0.0, L, n + 1) + x0)
@@ -107,7 +119,6 @@ def eval_case(case):
             out.append(("faces-are-images-of-uniform-faces", ""))
     elif k == "2d":
         nx, ny, lx, ly = case["nx"], case["ny"], case["lx"], case["ly"]
-        m = space.mesh2.mesh2d(nx, ny, lx, ly)
         if m.ncell != nx * ny:
             out.append(("cell-count", "%r" % m.ncell))
         nf = (nx + 1) * ny + nx * (ny + 1)
@@ -155,7 +166,10 @@ def eval_case(case):
                 out.append(("boundary-sets-disjoint", ""))
             if sorted(allf) != sorted(sum(want.values(), [])) or len(allf) != 2 * (nx + ny):
                 out.append(("boundary-sets-cover-boundary", ""))
-    return [("C20/%s/%s" % (k, rule), "%s %r: %s %s" % (k, {a: b for a, b in case.items() if a != "ctor"}, rule, what)) for rule, what in out]
+    del others
+    tag = "C20/%s/with-other-meshes-alive/%s" if then else "C20/%s/%s"
+    return [(tag % (k, rule), "%s %r%s: %s %s" % (k, {a: b for a, b in case.items() if a != "ctor"}, (" after also building %r" % (list(then),)) if then else "", rule, what))
+            for rule, what in out]
 
 
 def all_cases(tier):
@@ -171,6 +185,14 @@ def all_cases(tier):
     for n, L, x0 in itertools.product(NCELL, [1.0, 3.0], [-4.0]):
         for mo in ("id", "sin", "affine"):
             cases.append({"ctor": "morph", "ncell": n, "length": L, "x0": x0, "morph": mo})
+    # integer-typed arguments (python int, numpy integer) where floats are usual
+    for n, L, x0 in itertools.product([1, 3, 7, 12], [1, 3, 40], [0, -4, 2]):
+        cases.append({"ctor": "uni", "ncell": n, "length": L, "x0": x0})
+        cases.append({"ctor": "uni", "ncell": int(np.int64(n)), "length": L, "x0": x0, "npint": True})
+    for n, L, r, (a, b) in itertools.product([2, 4, 9, 12], [1, 3], [1, 2, 3], [(1, 1), (2, 1), (1, 2), (1, 3)]):
+        cases.append({"ctor": "ref", "ncell": n, "length": L, "ratio": r, "a": a, "b": b})
+    for nx, ny, (lx, ly) in itertools.product((1, 3, 4), (1, 2, 5), [(1, 1), (2, 3), (5, 1)]):
+        cases.append({"ctor": "2d", "nx": nx, "ny": ny, "lx": lx, "ly": ly})
     rng = range(1, 6) if tier == "quick" else range(1, 9)
     for nx, ny, (lx, ly) in itertools.product(rng, rng, [(1.0, 1.0), (2.0, 0.5), (0.1, 37.5)]):
         cases.append({"ctor": "2d", "nx": nx, "ny": ny, "lx": lx, "ly": ly})
@@ -186,6 +208,15 @@ def shard(block):
         res.census["ctor/" + case["ctor"]] += 1
         for s, w in eval_case(case):
             res.violation(s, w, case)
+    # histories construct A, construct B1..B3, ask A: the next two cases of the block and one from the other half (other constructor family)
+    nb = len(block)
+    for i, case in enumerate(block):
+        then = [block[(i + 1) % nb], block[(i + 2) % nb], block[(i + nb // 2) % nb]]
+        res.evals += 1
+        res.nontrivial += 1
+        res.census["history/construct-others-then-ask"] += 1
+        for s, w in eval_case(case, then):
+            res.violation(s, w, dict(case, then=then))
     res.sample(block[len(block) // 2], cap=1)
     return res
 
@@ -197,4 +228,6 @@ def run(ctx):
 
 
 def replay(case):
-    return eval_case(case)
+    case = dict(case)
+    then = case.pop("then", ())
+    return eval_case(case, then)
